@@ -64,7 +64,7 @@ def check(ctx, rep):
             rep.violation("transcript", fn, "anchor", "function not found")
             continue
         b = expand(ctx, util.bexpr(ctx, se, se.ret))
-        rep.check(b == w, "transcript", fn, "sha1-hmac", show_b(b), "expected %s, found %s" % (show_b(w), show_b(b)), se.body.loc())
+        rep.check(b == util.cb(w), "transcript", fn, "sha1-hmac", show_b(b), "expected %s, found %s" % (show_b(w), show_b(b)), se.body.loc())
         # parameter types: files are byte slices, salt 16 bytes, key 32 bytes
         sig = [ctx.fb.ty(i).s for i in se.body.d["inputs"]]
         if fn.endswith("windows") or fn.endswith("mac"):
